@@ -210,6 +210,26 @@ def run(ck):
     # ---- R5: the log stores names only, so the log is compared with the series by name only ------------------------------------------
     r5_names_only(ck, cmd_push, sap)
 
+    # ---- R6: a file created where an earlier patch of the same run deleted one is a new file ------------------------------------------
+    r6_created_file_is_new(ck)
+
+    # ---- R7: `existed` is about this invocation's start, so it may only steer how a file is written back -------------------------------
+    MF = "libpatch::modified_file::ModifiedFile"
+    readers = {}
+    for fn in prog.fns.values():
+        n_ = len([1 for bb, nm in df.adt_field_uses(fn, MF) if nm == "existed"])
+        if n_:
+            readers[fn.id] = n_
+    allowed = lambda fid: fid.endswith("apply::common::save_modified_file") or fid.startswith("libpatch::modified_file::ModifiedFile") or \
+        fid.startswith("<libpatch::modified_file::ModifiedFile")
+    bad_readers = sorted(f for f in readers if not allowed(f))
+    ck.require(not bad_readers and any(f.endswith("save_modified_file") for f in readers), "C09-R7",
+               "whether a file was on disk when this invocation started only steers how it is written back",
+               "ModifiedFile.existed is read by %s: it says what was on disk when THIS invocation loaded the file (false for a file an earlier patch "
+               "of the same run created, true for the same file when an earlier invocation created it), so any other decision based on it "
+               "differs between one push and a split push" % bad_readers, cmd_push.where(),
+               ok_detail="read only by save_modified_file (unlink before re-creating, parent clean-up) and ModifiedFile's own methods")
+
     # ---- R3 ------------------------------------------------------------------------------------------
     bad, abort_reach = effect_tables(ck)
     br, fi = noninterf.analyse_function(prog, cg, cmd_push, bad, abort_reach)
@@ -220,6 +240,68 @@ def run(ck):
     if not fi:
         for b in br:
             ck.ok("C09-R3", "branch on %s at bb%d in cmd_push" % (b[1], b[0]), "region of %d blocks is print-only and re-joins" % b[2])
+
+
+def r6_created_file_is_new(ck):
+    """Between two invocations a deleted file is simply absent; inside one invocation its record stays in memory, marked deleted.
+    When a later patch creates a file of that name and names no mode, the record's old mode must not survive: in apply_internal, on the
+    arm where the patch carries no mode, the permissions are reset on the path 'did not exist before this patch (read before the
+    patch was applied) and exists now (read after)'.  The old value still goes into the report, so a rollback restores it."""
+    rule = "C09-R6"
+    ai = ck.anchor("FilePatch::<'a, &'a [u8]>::apply_internal")
+    if ai is None:
+        return
+    sws = [sw for sw in pt.discr_switches(ai, lambda e, rv: True) if sw.get("adt") == "core::option::Option" and sw["edges"].get("None") and sw["edges"].get("Some")
+           and "Permissions" in (ai.local_ty(sw["place"]["l"]) if "place" in sw else "Permissions")]
+    dispatch = [bb for bb, t in ai.calls() if (callee_of(t).get("rpath") or "").split("::")[-1] in ("apply_modify", "apply_create", "apply_delete")]
+    if not ck.require(bool(sws) and bool(dispatch), rule, "apply_internal distinguishes patches with and without a mode",
+                      "no match on the patch's Option<Permissions> / no dispatch to apply_create found", ai.where()):
+        return
+    writes = []
+    for bb, t in ai.calls():
+        if ai.blocks[bb]["cleanup"] or not t["argtys"] or not t["argtys"][0].startswith("&mut core::option::Option<std::fs::Permissions>"):
+            continue
+        e = df.operand_expr(ai, t["args"][0])
+        if isinstance(e, tuple) and e[0] == "field" and e[2] == "permissions" and (callee_of(t).get("rpath") or "").split("::")[-1] in ("take", "replace", "insert"):
+            writes.append(bb)
+    for bb, idx, st in ai.stmts():
+        if st["k"] == "assign" and "p" in st["lhs"] and any(isinstance(p_, dict) and p_.get("name") == "permissions" for p_ in st["lhs"]["p"]):
+            writes.append(bb)
+    good = False
+    for sw in sws:
+        none_reg = cfg.dominated_by_edge(ai, sw["edges"]["None"])
+        for wb in writes:
+            if wb not in none_reg:
+                continue
+            before_true = after_false = False
+            for g in guards.find_bool_guards(ai, lambda e: isinstance(e, tuple) and e[0] == "field" and e[2] == "deleted"):
+                t = ai.blocks[g["bb"]]["term"]
+                op = t["discr"]
+                # where was the tested value read?  a local copied before the patch was dispatched, or the field as it is now
+                read_bb = g["bb"]
+                if op.get("k") in ("copy", "move") and "p" not in op["pl"]:
+                    one = df.defs_of(ai).single(op["pl"]["l"])
+                    while one is not None and one[0] == "stmt" and one[3]["rv"]["k"] == "use" and one[3]["rv"]["op"].get("k") in ("copy", "move") and \
+                            "p" not in one[3]["rv"]["op"]["pl"]:
+                        read_bb = one[1]
+                        nxt = df.defs_of(ai).single(one[3]["rv"]["op"]["pl"]["l"])
+                        if nxt is None:
+                            break
+                        one = nxt
+                    if one is not None:
+                        read_bb = one[1]
+                before = all(cfg.dominates(ai, read_bb, d) and read_bb != d for d in dispatch) or all(cfg.dominates(ai, read_bb, d) for d in dispatch)
+                if before and wb in cfg.dominated_by_edge(ai, g["true_edge"]):
+                    before_true = True
+                if not before and wb in cfg.dominated_by_edge(ai, g["false_edge"]):
+                    after_false = True
+            if before_true and after_false:
+                good = True
+    ck.require(good, rule, "a file created by a patch without a mode starts without the mode of a file deleted earlier in the run",
+               "in apply_internal, when the patch names no mode the record's permissions are never reset for a file that did not exist before "
+               "the patch and exists after it: a file deleted by one patch and created again by a later one keeps the old mode when both "
+               "are pushed by one invocation, but gets the default mode when they are pushed by two", ai.where(),
+               ok_detail="permissions reset on the path `absent before && present after`")
 
 
 SERIES_PATCH = "rapidquilt::apply::SeriesPatch"
